@@ -540,10 +540,6 @@ class MediaSegmentInfo(SegmentInfoBase):
         options = mp4.Options(lazy_load=False)
         if current_media_file.representation.encrypted:
             options.iv_size = current_media_file.representation.iv_size
-        with current_media_file.open_file(start=frag.pos, buffer_size=16384) as reader:
-            src = BufferedReader(
-                reader, offset=frag.pos, size=frag.size, buffersize=16384)
-            atom = mp4.Mp4Atom.load(src, options=options, use_wrapper=True)
         back_url = flask.url_for(
             'list-media-segments', spk=current_stream.pk, mfid=current_media_file.pk)
         full_title: str = f'Segment {segnum} in fille "{current_media_file.blob.filename}"'
@@ -552,7 +548,18 @@ class MediaSegmentInfo(SegmentInfoBase):
             short_title = 'Init Segment'
         else:
             short_title = f'Segment {segnum}'
-        return self.render_segment_info(atom, back_url, full_title, short_title)
+        try:
+            with current_media_file.open_file(start=frag.pos, buffer_size=16384) as reader:
+                src = BufferedReader(
+                    reader, offset=frag.pos, size=frag.size, buffersize=16384)
+                atom = mp4.Mp4Atom.load(src, options=options, use_wrapper=True)
+            return self.render_segment_info(atom, back_url, full_title, short_title)
+        except Exception as err:
+            # the stored file is corrupt, the parser (or the conversion of
+            # what it found) can fail in many ways
+            logging.warning('Failed to parse segment %d: %s', segnum, err)
+            return flask.make_response(
+                f'Failed to parse segment {segnum}: {html.escape(str(err))}', 404)
 
     def get_breadcrumbs(self, route: Route) -> list[NavBarItem]:
         crumbs: list[NavBarItem] = super().get_breadcrumbs(route)
@@ -624,14 +631,20 @@ class InspectMediaFile(SegmentInfoBase):
         logging.debug("Filename: " + blob_info.filename)
         if blob_info.filename == '':
             return flask.make_response('Filename not specified', 400)
-        print('blob_info', dir(blob_info))
         options = mp4.Options(lazy_load=False)
         src = BufferedReader(blob_info)
-        atom = mp4.Mp4Atom.load(src, options=options, use_wrapper=True)
         back_url = flask.url_for('inspect-media')
         full_title: str = f"Contents of {blob_info.filename}"
         short_title: str = blob_info.filename
-        return self.render_segment_info(atom, back_url, full_title, short_title)
+        try:
+            atom = mp4.Mp4Atom.load(src, options=options, use_wrapper=True)
+            return self.render_segment_info(atom, back_url, full_title, short_title)
+        except Exception as err:
+            # a truncated or corrupt file can make the parser (or the
+            # conversion of what it found) fail in many ways
+            logging.info('Failed to parse uploaded file: %s', err)
+            return flask.make_response(
+                f'Failed to parse MP4 file: {html.escape(str(err))}', 400)
 
     async def fetch_and_show(self, url: str) -> flask.Response:
         pool = ConcurrentWorkerPool(pool_executor)
